@@ -21,6 +21,10 @@ META = {
 }
 
 FINDINGS = {
+    "C12-create-counts-as-prematched": "PatchFields computes the pre-state of a create from the InitialMsgpackOnCreate seed: a create whose "
+                                       "seed matches Cap.Filter spends no budget and is never rejected",
+    "C12-patchexpired-releases-capmu-early": "PatchExpired releases capMu after its count+select step: a second cap-bearing call counts before "
+                                             "the selected records have been patched and spends the same budget again",
     "C12-count-before-capmu": "capPreCount counts the matching records before taking capMu: two concurrent cap-bearing PatchTreasures batches "
                               "both start from the same count and together push the number of matching records above Cap.MaxMatching",
 }
@@ -52,7 +56,7 @@ def run(ctx):
     K.lean_verdict(ctx)
     corrs = []
     if K.build_hx(ctx) and K.build_drv(ctx):
-        args = ["countAfterLock=" + facts.get("countAfterLock", "unknown")]
+        args = ["%s=%s" % (k, facts.get(k, "unknown")) for k in ("countAfterLock", "createPreFalse", "expiredHoldsCapMu")]
         c = K.correspondence(ctx, "C12", args)
         corrs.append(("C12", args, c))
     else:
